@@ -169,6 +169,16 @@ func run(out *Out, r *Rand, tier string, replay []string) {
 				out.Case("exhaust", l, obs, obs, true)
 				continue
 			}
+			if f[0] == "reuse" {
+				var k int
+				fmt.Sscanf(f[1], "%d", &k)
+				obs := rd.ReuseCase(rd.ParseHeader(f[2:]), k)
+				if strings.HasPrefix(obs, "ok") {
+					obs = "ok"
+				}
+				out.Case("reuse", l, obs, obs, true)
+				continue
+			}
 			if f[0] == "conc" {
 				var k, dc, pc, fu int
 				fmt.Sscanf(f[1], "%d:%d:%d:%d", &k, &dc, &pc, &fu)
@@ -251,6 +261,51 @@ func run(out *Out, r *Rand, tier string, replay []string) {
 			obs = "ok"
 		}
 		out.Case("exhaust", line, obs, obs, true)
+	}
+	// reused messages (Message.Reset, Decoder.ReuseBuffer): the configured limit is re-armed
+	for i := 0; i < 12; i++ {
+		m := &rd.Msg{Segs: [][]byte{rd.Words(rd.StructPtr(0, uint16(1+r.Intn(3)), uint16(r.Intn(2))), 1, 2, 3, 4)}, Arena: []string{"S", "M"}[r.Intn(2)]}
+		k := 1 + r.Intn(40)
+		line := fmt.Sprintf("reuse %d %s", k, m.Header())
+		obs := rd.ReuseCase(m, k)
+		if strings.HasPrefix(obs, "ok") {
+			obs = "ok"
+		}
+		out.Case("reuse", line, obs, obs, true)
+	}
+	// large bit lists: elements at and beyond index 1<<22 (byte offset 1<<19, where the struct
+	// data-offset bound of address.addOffset must not apply), first/last elements, out of range
+	runOps := func(kind string, m *rd.Msg, ops []string) {
+		s := &rd.Session{M: m.Build()}
+		var obs []string
+		for _, op := range ops {
+			obs = append(obs, s.Do(op))
+		}
+		o := strings.Join(obs, ";")
+		out.Case(kind, m.Header()+" "+strings.Join(ops, ";"), o, classOf(o), true)
+	}
+	for _, n := range []uint32{1<<22 - 1, 1 << 22, 1<<22 + 1, 1<<22 + 9, 1<<22 + 4095} {
+		seg := make([]byte, 8+(n+7)/8)
+		copy(seg, rd.Words(rd.ListPtr(0, 1, n)))
+		for k := 0; k < 256; k++ {
+			seg[8+r.Intn(len(seg)-8)] = byte(r.U64())
+		}
+		seg[8+(1<<19)-1] |= 0x80 // element 1<<22 - 1
+		if len(seg) > 8+(1<<19) {
+			seg[8+(1<<19)] |= 0x01 // element 1<<22
+		}
+		seg[len(seg)-1] = 0xff
+		for len(seg)%8 != 0 {
+			seg = append(seg, 0)
+		}
+		ops := []string{"root"}
+		for _, i := range []int64{0, 1, 1<<22 - 2, 1<<22 - 1, 1 << 22, 1<<22 + 1, 1<<22 + 8, int64(n) - 2, int64(n) - 1, int64(r.Intn(int(n)))} {
+			if i >= 0 && i < int64(n) {
+				ops = append(ops, fmt.Sprintf("bitat:0:%d", i))
+			}
+		}
+		ops = append(ops, "rlimit", "info:0")
+		runOps("bigbits", &rd.Msg{Segs: [][]byte{seg}, T: 0, D: 0, Arena: "S"}, ops)
 	}
 	// degenerate arenas
 	for _, segs := range [][][]byte{{}, {{}}, {{1, 2, 3}}, {rd.Words(0)}, {{}, rd.Words(0)}} {
